@@ -19,6 +19,7 @@ func init() {
 	engine.RegisterSignature("c16-store-error-go-panic", sigStorePanic)
 	engine.RegisterSignature("c16-slice-setlen-unaddressable", sigSetLen)
 	engine.RegisterSignature("c16-delete-non-index-stack-overflow", sigLethal)
+	engine.RegisterSignature("c16-passback-rebuilt-elementwise", sigPassbackCopy)
 }
 
 func typeByName(name string) reflect.Type {
@@ -238,4 +239,20 @@ func sigSetLen(m *engine.Mismatch) bool {
 func sigLethal(m *engine.Mismatch) bool {
 	return m.Aux["class"] == "lethal" && m.Aux["outcome"] == "fatal:stack-overflow" &&
 		strings.HasPrefix(m.Aux["op"], "delete c[") && strings.Contains(m.Observed, "stack overflow")
+}
+
+// sigPassbackCopy accepts: a bridged Go slice or map passed back to a []T /
+// map[K]V parameter, or a struct bridged by pointer passed to a by-value struct
+// parameter; convertCallParameter rebuilds the value element by element, so the
+// callee's writes land in a copy: the observed view is exactly the twin's state
+// under copy semantics (recorded by the family as aux copy.*).
+func sigPassbackCopy(m *engine.Mismatch) bool {
+	switch m.Aux["cell"] {
+	case "setL(o.L)", "setM(o.M)", "setItems(o.Items)", "valO(o)":
+	default:
+		return false
+	}
+	c := m.Aux["component"]
+	want, ok := m.Aux["copy."+c]
+	return ok && m.Observed == c+"="+want
 }
